@@ -52,4 +52,10 @@ def regen_all():
         out.append(("Gen/EvalSites.lean", evalsites.regen()[2]))
     except ImportError:
         pass
+    try:
+        from harness.translators import consts
+
+        out.append(("Gen/Consts.lean", consts.regen()[1]))
+    except ImportError:
+        pass
     return out
